@@ -62,7 +62,22 @@ func rawValue(g *Gen, ty Ty) V {
 		case 8:
 			return V{T: "uint64", U: r.U64() >> 1}
 		case 9:
-			return V{T: "time", I: int64(r.Range(-1000, 2000000000)), U: uint64(r.Range(0, 999999999))}
+			// instants across the whole range time.Time supports: around and
+			// before 1970 (with sub-second parts), far past and future, the zero Time
+			sec := int64(r.Range(-1000, 2000000000))
+			switch r.Intn(5) {
+			case 0:
+				sec = int64(r.Range(-100000, 100))
+			case 1:
+				sec = int64(r.U64()%400000000000) - 100000000000 // years ~ -1200 .. 11400
+			case 2:
+				sec = -62135596800 // time.Time{}
+			}
+			ns := uint64(r.Range(0, 999999999))
+			if r.P(0.3) {
+				ns = 0
+			}
+			return V{T: "time", I: sec, U: ns}
 		default:
 			return V{T: "dur", I: int64(r.Range(-5000, 500000)) * 1000000 * int64(r.Range(1, 1000))}
 		}
@@ -218,6 +233,25 @@ func (propC11) Gen(r *Rng, tier string) *World {
 		}
 		w.Steps = append(w.Steps, Step{Op: "oneshot", Expr: r.Intn(len(w.Progs)), Plan: &p})
 	}
+	if r.P(0.3) {
+		// eval.Eval(text, vals, ExtendConf(cc)): the one-shot helper on top of the
+		// history's configuration; the binding also holds names cc does not know
+		pi := r.Intn(len(w.Progs))
+		var need []string
+		for _, n := range referencedVars(w.Progs[pi]) {
+			if !registered[n] {
+				need = append(need, n)
+			}
+		}
+		if !undefined {
+			regSome(need)
+		}
+		p := Plan{Bind: map[string]V{}}
+		for _, v := range w.Cfg.Vars {
+			p.Bind[v.Name] = rawValue(g, v.Ty)
+		}
+		w.Steps = append(w.Steps, Step{Op: "oneshot_extend", Expr: pi, Plan: &p})
+	}
 	return w
 }
 
@@ -362,7 +396,7 @@ func (propC11) Run(w *World, st *Stats) (vv *Violation) {
 				return viol(w, "dump-unreadable", "step %d: Dump of %s cannot be read back: %v", si, src, derr)
 			}
 			trees[s.Expr] = tree
-		case "eval", "oneshot":
+		case "eval", "oneshot", "oneshot_extend":
 			prog := w.Progs[s.Expr]
 			vals := map[string]interface{}{}
 			norm := map[string]V{}
@@ -389,7 +423,10 @@ func (propC11) Run(w *World, st *Stats) (vv *Violation) {
 			var got eval.Value
 			var gerr error
 			var log []Call
-			if s.Op == "oneshot" {
+			if s.Op == "oneshot_extend" {
+				got, gerr = eval.Eval(prog.Src(), vals, eval.ExtendConf(cc), eval.Optimizations(false))
+				st.Probe("oneshot_extend_runs")
+			} else if s.Op == "oneshot" {
 				if len(consts) > 0 {
 					cm := consts
 					got, gerr = eval.Eval(prog.Src(), vals, eval.RegVarAndOp(vals), eval.Optimizations(false), func(c *eval.Config) {
